@@ -12,22 +12,23 @@
 (***************************************************************************)
 EXTENDS ShlibsMC
 
-Pool == MC_Cases
+Pool == CasesOf(ML, MW)
 Dom == {c \in Pool : InDomain(c)}
 Deviations == Variants \ {"asis"}
 \* for every deviation and clause: a case on which the deviation breaks that clause (if any)
-FailedBy == [v \in Deviations |-> [c \in Dom |-> Failed(c, Run(v, c))]]          \* tabulated once
+FailedBy == TLCEval([v \in Deviations |-> [c \in Dom |-> Failed(c, Run(v, c))]])          \* tabulated once
 Killers == {[variant |-> q[1], clause |-> q[2], case |-> CHOOSE c \in Dom : q[2] \in FailedBy[q[1]][c]] :
               q \in {q \in Deviations \X ClauseNames : \E c \in Dom : q[2] \in FailedBy[q[1]][c]}}
 Undetected == {v \in Deviations : \A k \in Killers : k.variant # v}
 
 \* precondition: ambiguous listings on which the code does not produce Resolve
 Ambig == {c \in Pool : WFCase(c) /\ ~Unambiguous(c) /\ Run("asis", c).kind # Resolve(c).kind}
-\* a request that names an existing file gets no pattern
+\* a request that names an existing file gets no pattern (outside the statement, see Shlibs!Named): probes on which
+\* the file changes the outcome
 WithFile(c) == [c EXCEPT !.files = <<c.reqs[1]>>]
-FileWit == {WithFile(c) : c \in {d \in Dom : Len(d.reqs) > 0 /\ Failed(WithFile(d), Run("asis", WithFile(d))) # {}}}
-FileKinds == {Failed(c, Run("asis", c)) : c \in FileWit}
-FilePick == {CHOOSE c \in FileWit : Failed(c, Run("asis", c)) = k : k \in FileKinds}
+FileWit == {WithFile(d) : d \in {d \in Dom : Len(d.reqs) > 0 /\ Run("asis", WithFile(d)) # Run("asis", d)}}
+FileKinds == {<<Len(c.reqs), Run("asis", c).kind>> : c \in FileWit}
+FilePick == {CHOOSE c \in FileWit : <<Len(c.reqs), Run("asis", c).kind>> = k : k \in FileKinds}
 \* archives the code drops without a word
 LaBad == {a \in MC_LaCases : ~LaClauses(a, LaRun(a)).LaFailLoudly}
 LaPick == {CHOOSE a \in LaBad : LaKind(a) = k /\ \A b \in LaBad : LaKind(b) = k => Len(b.lines) >= Len(a.lines) : k \in {LaKind(a) : a \in LaBad}}
@@ -35,6 +36,9 @@ LaPick == {CHOOSE a \in LaBad : LaKind(a) = k /\ \A b \in LaBad : LaKind(b) = k 
 ASSUME \A c \in Pool : Failed(c, Run("asis", c)) = {}
 ASSUME Undetected = {}
 ASSUME Ambig # {}
+\* (all the work is in the ASSUMEs; the behaviour spec is a single idle state)
+WInit == case = [t |-> "none"] /\ st = Idle /\ outcome = None /\ theme = "-"
+WNext == UNCHANGED <<vars, theme>>
 ASSUME JsonSerialize(IOEnv.C19_WITNESS,
          [killers |-> SetToSeq(Killers), ambiguous |-> SetToSeq({CHOOSE c \in Ambig : TRUE}),
           files |-> SetToSeq(FilePick), la |-> SetToSeq(LaPick),
